@@ -187,6 +187,7 @@ static int do_replay(const Str &path, bool quiet) {
     return ctx.viols.empty() ? 0 : 1;
 }
 
+#ifndef VCHECK_NO_MAIN
 int main(int argc, char **argv) {
     setvbuf(stdout, 0, _IOLBF, 0);
     Str id, tier = "quick", known, evidence_dir = "evidence", replays_dir = "replays", replay_path, stats_out, tmpdir = "build/tmp";
@@ -309,3 +310,4 @@ int main(int argc, char **argv) {
     if (harness_error) return 2;
     return n_unknown ? 1 : 0;
 }
+#endif
